@@ -62,6 +62,66 @@ def gen_unit(level, shards, wd):
         return list(ex.map(one, range(shards)))
 
 
+PREC = {"+": 1, "-": 1, "*": 2, "/": 2, "//": 2}
+
+
+def render_expr(t, parent=0, right=False):
+    """the tree with the fewest parentheses (usual precedence, equal precedence associates to the left)"""
+    if t[0] == "n":
+        return str(t[1])
+    p = PREC[t[0]]
+    s = render_expr(t[1], p, False) + t[0] + render_expr(t[2], p, True)
+    return "(" + s + ")" if p < parent or (p == parent and right) else s
+
+
+def const_part(ck, wd, thorough):
+    """constant expressions (GEN_Const): push.<constant> pushes the value of the expression tree"""
+    shards = 8 if thorough else 4
+
+    def one(sh):
+        cfgp = os.path.join(wd, "GEN_Const_%d.cfg" % sh)
+        with open(cfgp, "w") as f:
+            f.write('CONSTANTS DEPTH = 3 LEAVES = %s OPS = %s SHARD = %d NSHARDS = %d\nINIT Init\nNEXT Next\nCHECK_DEADLOCK FALSE\n' % (
+                "{2, 7, 1000003}" if thorough else "{2, 7}", '{"+", "-", "*", "//", "/"}' if thorough else '{"+", "-", "*", "//"}', sh, shards))
+        return tlc_or_die("GEN_Const.tla", cfg=cfgp, cwd=os.path.join(SPEC, "gen"), workers=2, timeout=3000, heap="4g")
+    cases = []
+    with cf.ThreadPoolExecutor(max_workers=4) as ex:
+        for r in ex.map(one, range(shards)):
+            ck.add_tlc(r)
+            cases += json_prints(r, "const")
+    if len(cases) < 3000:
+        raise ToolError("GEN_Const produced only %d expressions" % len(cases))
+    cases.sort(key=lambda c: json.dumps(c["tree"]))
+    recs, meta = [], []
+    for i, c in enumerate(cases):
+        t = c["tree"]
+        recs.append({"src": "const.X=%s\nbegin\n  push.X\nend\n" % render_expr(t), "inputs": [], "adv": []})
+        meta.append((c, "direct"))
+        if i % 3 == 0 and t[0] != "n":
+            # the same tree with its two operands routed through earlier constants
+            recs.append({"src": "const.A=%s\nconst.B=%s\nconst.X=A%sB\nbegin\n  push.X\nend\n" % (render_expr(t[1]), render_expr(t[2]), t[0]), "inputs": [], "adv": []})
+            meta.append((c, "named"))
+    inp = os.path.join(wd, "const_scenarios.ndjson")
+    with open(inp, "w") as f:
+        for r_ in recs:
+            f.write(json.dumps(r_) + "\n")
+    for prof in ("release", "checked"):
+        outp = os.path.join(wd, "const_results_%s.ndjson" % prof)
+        run_harness(prof, ["replay-masm", inp, outp])
+        results = [json.loads(l) for l in open(outp)]
+        if len(results) != len(recs):
+            raise ToolError("replay returned %d results for %d constant programs" % (len(results), len(recs)))
+        for (c, how), rec, res in zip(meta, recs, results):
+            ck.traces += 1
+            ck.note_case(rec["src"])
+            exp = {"ok": "ok", "stack": [c["value"]] + [[0, 0, 0, 0]] * 15}
+            d = expected_vs_actual(exp, res)
+            if d:
+                ck.violation("const:%s:%s:%s" % (prof, how, c["tree"][0]), d + " | expression " + rec["src"].split("\nbegin")[0].replace("\n", " ; "),
+                             {"kind": "const", "profile": prof, "tree": c["tree"], "src": rec["src"], "impl": res})
+    ck.extra["constant_expressions"] = len(cases)
+
+
 def run(tier, replay=None):
     ck = Check("C05", tier)
     ck.rule = ("a case = (instruction variant incl. immediate / rendering, operand tuple from the boundary set, initial depth) "
@@ -128,6 +188,8 @@ def run(tier, replay=None):
             if d:
                 ck.violation("masm:%s:%s" % (prof, sig_of(sc)), d + " | program: " + rec["src"].replace("\n", " ")[:300],
                              {"kind": "masm", "profile": prof, "scenario": sc, "src": rec["src"], "impl": res})
+    if not replay:
+        const_part(ck, wd, thorough)
     ck.extra["instructions_covered"] = sorted(ops_seen)
     for sc, rec in list(zip(scs, rendered))[:: max(1, len(scs) // 5)][:5]:
         ck.sample({"src": rec["src"], "inputs_top_first": [unlimbs(x) for x in rec["inputs"]][:8], "expect": sc["expect"]["ok"],
